@@ -24,6 +24,7 @@
 # that is queued silently always follows a refused attempt of the queue head in the same SendFrame.  The oracle therefore keeps the
 # known head of the queue and the list of "gaps" (positions right after a refused attempt) and judges a frame that surfaces later
 # against every possible production position (existentially: never a false alarm).
+from nodesim import own_addr
 import random
 from nodesim import parse_result
 from nodegen import can_id, rx, tp_rts, tp_dt, tp_cm, iso_request, claim, random_history
@@ -76,7 +77,7 @@ class Tracker:
     def __init__(self, fs, mode, ndev, src0):
         self.w64 = (fs == 'w64')
         self.mode = mode
-        self.devs = [Dev((src0 + i) & 255, dev_name(i)) for i in range(ndev)]
+        self.devs = [Dev(own_addr(src0, i), dev_name(i)) for i in range(ndev)]
         self.now = 0
 
     # --- tN2kScheduler of the build
@@ -566,7 +567,7 @@ def gen_cold(r, cases, thorough):
             ndev = r.choice([1, 1, 2, 3])
             src = r.choice([22, 30, 0, 251 - ndev + 1, 254 if ndev == 1 else 100])
             t0 = r.choice(T0S)
-            own = [(src + i) & 255 for i in range(ndev)]
+            own = [own_addr(src, i) for i in range(ndev)]
             ops = []
             t = 0
             pts = sorted(set(r.sample(marks, r.randint(3, len(marks))) + ([0] if r.random() < 0.7 else [])))
@@ -606,7 +607,7 @@ def gen_windows(r, cases, thorough):
         mode = r.choice([1, 1, 1, 2, 2, 3, 4, 0])
         ndev = r.choice([1, 2, 2, 3])
         src = r.choice([0, 22, 30, 100, 252 - ndev])
-        own = [src + i for i in range(ndev)]
+        own = [own_addr(src, i) for i in range(ndev)]
         names = [dev_name(i) for i in range(ndev)]
         target = r.randrange(ndev)
         hb = r.random() < 0.2
@@ -638,7 +639,7 @@ def gen_pending(r, cases, thorough):
         mode = r.choice([1, 2])
         ndev = r.choice([1, 2])
         src = r.choice([0, 1, 5])
-        own = [src + i for i in range(ndev)]
+        own = [own_addr(src, i) for i in range(ndev)]
         target = r.randrange(ndev)
         ops = []
         y = r.random()
@@ -688,7 +689,7 @@ def gen_backpressure(r, cases, thorough):
         mode = r.choice([1, 1, 2])
         ndev = r.choice([1, 2, 3])
         src = r.choice([22, 30, 100])
-        own = [src + i for i in range(ndev)]
+        own = [own_addr(src, i) for i in range(ndev)]
         names = [dev_name(i) for i in range(ndev)]
         target = r.randrange(ndev)
         q = r.choice([1, 2, 3, 4])
